@@ -148,7 +148,7 @@ func (c *checker) catalogue(combos []combo) {
 			if v5 {
 				for n := 0; n < nPropMutations; n++ {
 					if mt, ok := m.propMutantN(n, b, p); ok {
-						c.runCase(caseInfo{gen: "mut:" + mt.kind, v: cb.v, in: mt.in})
+						c.runCase(caseInfo{gen: "mut:" + mt.kind, v: cb.v, in: mt.in, mustReject: mt.mustReject})
 					}
 				}
 			}
